@@ -1138,3 +1138,64 @@ func constPoolRules(p *core.Program, r *core.Report, e *engines) {
 	r.Check(okFresh, rule, "compiler.(compiler).makeConstant/returns the index of the appended element", pos, "the miss path returns encode(len(pool)−1) taken after the append", "the miss path does not return the index of the element just appended: the operand designates another constant")
 	r.Check(okStore && okHit, rule, "compiler.(compiler).makeConstant/index map", pos, "the de-duplication map is looked up by the value before the append and written only with the fresh index", "index map discipline broken: "+detail)
 }
+
+// emptyAtStartRule (R5.9): "no run pops an empty stack / no scope is left open" is proved per
+// template relative to the depth at the template's entry; the base case is that a run STARTS
+// with an empty evaluation stack and no open scope — also on a VM value that an earlier run
+// (possibly one that failed inside a loop) left non-empty. Every path of Run's prologue must
+// assign the field an empty value: a zero-length reslice of itself, nil, a fresh make of length
+// 0 or an empty literal; the false edge of `field != nil` counts (nil is empty).
+func emptyAtStartRule(p *core.Program, r *core.Report, e *engines) {
+	vm := e.vm
+	info := p.Pkg("vm").TypesInfo
+	prologue, loop := vmPrologue(vm)
+	if loop == nil {
+		r.Unk("R5.9", "vm.(VM).Run/dispatch loop", p.Pos(vm.Run.Pos()), "the dispatch loop is not a top-level statement of Run")
+		return
+	}
+	for _, role := range []string{"stack", "scopes"} {
+		f := vm.Fields[role]
+		key := "vm.(VM).Run/" + role + " empty before the dispatch loop"
+		if f == nil {
+			r.Unk("R5.9", key, p.Pos(vm.Run.Pos()), "VM field with the role `"+role+"` not found")
+			continue
+		}
+		res := mustReset(info, p, vm, prologue, f, 0)
+		if !res.must {
+			r.Bad("R5.9", key, p.Pos(vm.Run.Pos()), "the "+role+" is not emptied on every path from Run's entry to the dispatch loop: on a reused VM a run that failed midway leaves entries behind, and the next successful run ends with more than its result on the stack or with a loop scope still open")
+			continue
+		}
+		bad := ""
+		for _, v := range res.values {
+			if !isEmptyValue(info, vm, f, v) {
+				bad = eng.ExprStr(v)
+			}
+		}
+		r.Check(bad == "", "R5.9", key, p.Pos(vm.Run.Pos()), "assigned an empty value on every path", "assigned `"+bad+"`, which is not known to be empty")
+	}
+	r.Floor("R5.9", 2)
+}
+
+func isEmptyValue(info *types.Info, vm *eng.VMModel, f *types.Var, v ast.Expr) bool {
+	v = eng.Unparen(v)
+	zero := func(e ast.Expr) bool {
+		if e == nil {
+			return true
+		}
+		tv, ok := info.Types[e]
+		return ok && tv.Value != nil && tv.Value.ExactString() == "0"
+	}
+	switch x := v.(type) {
+	case *ast.SliceExpr:
+		return vmFieldOf(info, vm.VMType, x.X) == f && zero(x.Low) && x.High != nil && zero(x.High)
+	case *ast.Ident:
+		return isNilIdent(info, x)
+	case *ast.CompositeLit:
+		return len(x.Elts) == 0
+	case *ast.CallExpr:
+		if isBuiltinCall(info, x, "make") && len(x.Args) >= 2 {
+			return zero(x.Args[1])
+		}
+	}
+	return false
+}
